@@ -34,6 +34,8 @@ TRead ==
                          /\ s' = SReadOk(v, s, Ev.ret.data)
          [] k = "okp" -> /\ Ev.ret.n >= 1 /\ Ev.ret.n <= Ev.buflen
                          /\ s' = SReadOkPeriodic(v, s, Ev.ret.pat, Ev.ret.off, Ev.ret.n)
+         [] k = "okp_run" -> /\ Ev.ret.n >= 1 /\ Ev.ret.n <= Ev.buflen /\ Ev.ret.count >= 1 /\ v.ckLen = 1
+                             /\ s' = SReadOkRun(v, s, Ev.ret.pat, Ev.ret.off, Ev.ret.n, Ev.ret.count)
          [] k = "int" -> s' = SReadInterrupted(v, s)
          [] k = "err" -> s' = SReadErr(v, s, Ev.ret.err)
          [] k = "eof" -> s' = SReadEof(v, s)
